@@ -98,7 +98,7 @@ CHECK_DEADLOCK FALSE
 """
 
 
-def faults_mc_cfg(w, n, q, dec, faults, stuck_inv):
+def faults_mc_cfg(w, n, q, dec, faults, stuck_inv, wfaults=False):
     return """CONSTANTS
   W = %d
   N = %d
@@ -107,12 +107,14 @@ def faults_mc_cfg(w, n, q, dec, faults, stuck_inv):
   IndexAssign = TRUE
   DecOnFail = %s
   MaxFaults = %d
+  WorkerFaults = %s
 SPECIFICATION FFairSpec
-INVARIANTS FTypeOK OkMeansComplete FailureReported PrefixSafe %s
+INVARIANTS FTypeOK OkMeansComplete FailureReported PrefixSafe WriterEndsWellOnlyIfComplete %s
 %s
 CHECK_DEADLOCK FALSE
-""" % (w, n, q, "TRUE" if dec else "FALSE", faults, "NeverStuck" if stuck_inv else "",
-       ("PROPERTIES " + " ".join((["Settles"] if dec or not faults else []) + ([] if faults else ["NoFaultIsOk"]))) if (dec or not faults) else "")
+""" % (w, n, q, "TRUE" if dec else "FALSE", faults, "TRUE" if wfaults else "FALSE", "NeverStuck" if stuck_inv else "",
+       ("PROPERTIES " + " ".join((["Settles"] if dec or not (faults or wfaults) else []) + ([] if (faults or wfaults) else ["NoFaultIsOk"])))
+       if (dec or not (faults or wfaults)) else "")
 
 
 def fault_path_stage(rep, prop, tier, hooked, base, rng):
@@ -138,6 +140,17 @@ def fault_path_stage(rep, prop, tier, hooked, base, rng):
     obs["design"].append({"policy": "repaired (DecOnFail)", "violated": r["violated"], "states": r["states"]})
     if not r["ok"]:
         rep.drift("PipelineFaults (repaired policy) violates %s" % r["violated"])
+    # a worker's own failure (its compression returns an error): modelled from the code only
+    r = C.tlc("PipelineFaults", faults_mc_cfg(w, n, q, False, 0, True, wfaults=True), "MC_PipelineFaults_code_workerfail", timeout=1800)
+    rep.add_tlc(r, "MC_PipelineFaults code policy, failing workers only (expected: NeverStuck violated)")
+    obs["design"].append({"policy": "code, a worker's compression fails, the writer does not", "violated": r["violated"], "states": r["states"]})
+    if r["violated"] != "NeverStuck":
+        rep.drift("PipelineFaults (code policy, failing workers): expected Stuck to be reachable, TLC says violated=%s" % r["violated"])
+    r = C.tlc("PipelineFaults", faults_mc_cfg(w, n, q, True, 1, True, wfaults=True), "MC_PipelineFaults_repaired_both", timeout=1800)
+    rep.add_tlc(r, "MC_PipelineFaults repaired policy, failing writer and failing workers: Settles, NeverStuck")
+    obs["design"].append({"policy": "repaired, writer and workers may fail", "violated": r["violated"], "states": r["states"]})
+    if not r["ok"]:
+        rep.drift("PipelineFaults (repaired policy, writer and workers failing) violates %s" % r["violated"])
     r = C.tlc("PipelineFaults", faults_mc_cfg(w, n, q, False, 0, True), "MC_PipelineFaults_nofault", timeout=1800)
     rep.add_tlc(r, "MC_PipelineFaults without a fault: the extension is the original machine (Settles in ok)")
     if not r["ok"]:
